@@ -389,6 +389,7 @@ struct POp {
 };
 struct PCase {
     uint32_t period = 100;
+    bool no_sink = false; // no audio callback installed (the second port behind the facade never has one): queue, flags and interrupts behave the same
     std::vector<POp> ops;
 };
 struct PairSut {
@@ -397,16 +398,17 @@ struct PairSut {
     Teakra::Btdmp b{ct};
     std::vector<Frame> frames;
     uint64_t irqs = 0, tirqs = 0, now = 0;
-    PairSut() {
-        b.SetAudioCallback([this](std::array<std::int16_t, 2> s) {
-            frames.push_back({s[0], s[1]}); // (when inside a bulk advance a frame falls is not observable; how many per operation is)
-        });
+    explicit PairSut(bool sink) {
+        if (sink)
+            b.SetAudioCallback([this](std::array<std::int16_t, 2> s) {
+                frames.push_back({s[0], s[1]}); // (when inside a bulk advance a frame falls is not observable; how many per operation is)
+            });
         b.SetInterruptHandler([this] { ++irqs; });
         tm.SetInterruptHandler([this] { ++tirqs; });
     }
 };
 std::string pencode(const PCase& c) {
-    std::string s = "period " + vf::hex(c.period) + "\n";
+    std::string s = "period " + vf::hex(c.period) + "\nnosink " + vf::hex(c.no_sink) + "\n";
     for (auto& op : c.ops)
         s += "p " + vf::hex(op.kind) + " " + vf::hex(op.a) + "\n";
     return s;
@@ -417,6 +419,8 @@ PCase pdecode(const std::string& text) {
         auto t = vf::split_ws(l);
         if (t.size() >= 2 && t[0] == "period")
             c.period = std::max<uint32_t>(1, (uint32_t)vf::unhex(t[1]) & 0xFFFF);
+        else if (t.size() >= 2 && t[0] == "nosink")
+            c.no_sink = vf::unhex(t[1]) != 0;
         else if (t.size() >= 3 && t[0] == "p") {
             POp op;
             op.kind = (int)(vf::unhex(t[1]) % 6);
@@ -427,7 +431,9 @@ PCase pdecode(const std::string& text) {
     return c;
 }
 vf::Result pcheck(const PCase& cs) {
-    PairSut A, B;
+    PairSut A(!cs.no_sink), B(!cs.no_sink);
+    if (cs.no_sink)
+        vf::klass("pair: port without an audio callback");
     for (PairSut* s : {&A, &B}) {
         s->b.SetTransmitPeriod((u16)cs.period);
         s->tm.count_mode = Teakra::Timer::CountMode::FreeRunning;
@@ -508,11 +514,131 @@ rc::Gen<PCase> genPCase() {
     using namespace rc;
     auto opGen = gen::map(gen::pair(gen::weightedElement<int>({{3, 0}, {2, 1}, {2, 2}, {6, 3}, {1, 4}, {1, 5}}), gen::resize(100, gen::arbitrary<uint64_t>())),
                           [](std::pair<int, uint64_t> p) { return POp{p.first, p.second}; });
-    return gen::map(gen::pair(gen::element<uint32_t>(1, 2, 3, 7, 16, 100, 100, 1000, 4096), gen::container<std::vector<POp>>(opGen)), [](std::pair<uint32_t, std::vector<POp>> p) {
+    return gen::map(gen::tuple(gen::element<uint32_t>(1, 2, 3, 7, 16, 100, 100, 1000, 4096), gen::container<std::vector<POp>>(opGen), vf::range<unsigned>(0, 4)),
+                    [](std::tuple<uint32_t, std::vector<POp>, unsigned> p) {
         PCase c;
-        c.period = p.first;
-        c.ops = p.second;
+        c.period = std::get<0>(p);
+        c.ops = std::get<1>(p);
+        c.no_sink = std::get<2>(p) == 0;
         c.ops.insert(c.ops.begin(), POp{1, 1}); // enabled from the start
+        return c;
+    });
+}
+
+// ---- both ports behind the facade: MMIO wiring, the idle loop's fast-forward, the ICU lines ---------------------------------------
+#include "register.h"
+#include "teakra/teakra.h"
+struct FOp {
+    int kind = 0; // 0 send n words to a port, 1 flush a port, 2 enable / disable a port, 3 run
+    unsigned port = 0;
+    uint64_t a = 0;
+};
+using FCase = std::vector<FOp>;
+std::string fencode(const FCase& c) {
+    std::string s;
+    for (auto& op : c)
+        s += "f " + vf::hex(op.kind) + " " + vf::hex(op.port) + " " + vf::hex(op.a) + "\n";
+    return s;
+}
+FCase fdecode(const std::string& text) {
+    FCase c;
+    for (auto& l : vf::lines(text)) {
+        auto t = vf::split_ws(l);
+        if (t.size() < 4 || t[0] != "f")
+            continue;
+        FOp op;
+        op.kind = (int)(vf::unhex(t[1]) % 4);
+        op.port = (unsigned)vf::unhex(t[2]) & 1;
+        op.a = vf::unhex(t[3]);
+        c.push_back(op);
+    }
+    return c;
+}
+vf::Result fcheck(const FCase& cs) {
+    static Teakra::Teakra* inst = new Teakra::Teakra(Teakra::UserConfig{});
+    static std::vector<Frame>* sink = new std::vector<Frame>;
+    static bool wired = false;
+    Teakra::Teakra& t = *inst;
+    if (!wired) {
+        t.SetAudioCallback([](std::array<std::int16_t, 2> s) { sink->push_back({s[0], s[1]}); });
+        wired = true;
+    }
+    t.Reset();
+    sink->clear();
+    t.ProgramWrite(0, 0x57F0); // brr -1: the DSP idles, so Run() fast-forwards through the ports' horizons
+    t.GetRegisterState().pc = 0;
+    t.MMIOWrite(0x202, 0xFFFF);
+    Model m[2];
+    uint16_t serial = 0x100;
+    std::string trace;
+    bool nontrivial = false;
+    auto fail = [&](const std::string& sig, const std::string& what, size_t i) {
+        return vf::Result::fail(sig, what + " at op " + std::to_string(i) + " (" + trace + ")");
+    };
+    for (size_t i = 0; i < cs.size(); ++i) {
+        const FOp& op = cs[i];
+        const uint16_t base = (uint16_t)(0x80 * op.port);
+        uint64_t irq0[2] = {m[0].irqs, m[1].irqs};
+        t.MMIOWrite(0x202, 0x0800); // acknowledge the audio line: the pending bit then shows this operation's interrupts
+        switch (op.kind) {
+        case 0:
+            for (uint64_t k = 0; k < 1 + op.a % 6; ++k, ++serial) {
+                t.MMIOWrite(0x2C6 + base, serial);
+                m[op.port].send(serial);
+            }
+            trace += "send" + std::to_string(op.port) + "*" + std::to_string(1 + op.a % 6) + " ";
+            break;
+        case 1:
+            t.MMIOWrite(0x2CA + base, 1);
+            m[op.port].flush();
+            trace += "flush" + std::to_string(op.port) + " ";
+            break;
+        case 2:
+            t.MMIOWrite(0x2BE + base, (uint16_t)(op.a % 4 != 0));
+            m[op.port].enabled = op.a % 4 != 0;
+            trace += "enable" + std::to_string(op.port) + "=" + std::to_string(op.a % 4 != 0) + " ";
+            break;
+        default: {
+            unsigned n = (unsigned)(op.a % 3 == 0 ? 1 + op.a % 50 : (op.a % 3 == 1 ? 4000 + op.a % 300 : 1 + op.a % 13000));
+            t.Run(n);
+            for (unsigned k = 0; k < n; ++k) {
+                m[0].tick();
+                m[1].tick();
+            }
+            trace += "run(" + std::to_string(n) + ") ";
+            if (n >= 4096)
+                nontrivial = true;
+            break;
+        }
+        }
+        if (sink->size() != m[0].frames.size() || !std::equal(sink->begin(), sink->end(), m[0].frames.begin()))
+            return fail("C16:facade:frames", "port 0 delivered " + std::to_string(sink->size()) + " frames, the model " + std::to_string(m[0].frames.size()) +
+                                                 (sink->size() == m[0].frames.size() ? " (contents differ)" : ""), i);
+        uint16_t pending = t.MMIORead(0x200);
+        for (unsigned p = 0; p < 2; ++p) {
+            uint16_t st = t.MMIORead((uint16_t)(0x2C2 + 0x80 * p));
+            bool full = (st >> 3) & 1, empty = (st >> 4) & 1;
+            if (full != (m[p].q.size() == 16) || empty != m[p].q.empty())
+                return fail("C16:facade:flags:port" + std::to_string(p), "port " + std::to_string(p) + " status reads full=" + std::to_string(full) + " empty=" +
+                                                                              std::to_string(empty) + " but its queue holds " + std::to_string(m[p].q.size()) + " words", i);
+        }
+        // (both ports raise ICU line 0xB in this emulator)
+        bool irq = (pending >> 0xB) & 1, want_irq = m[0].irqs != irq0[0] || m[1].irqs != irq0[1];
+        if (irq != want_irq)
+            return fail("C16:facade:irq", irq ? "the audio interrupt (ICU line 0xB) was raised although no pop emptied a queue"
+                                              : "no audio interrupt (ICU line 0xB) although a pop emptied a queue", i);
+    }
+    vf::klass("facade: both ports through MMIO");
+    vf::note(vf::hash_str(fencode(cs)), nontrivial);
+    return vf::Result::pass();
+}
+rc::Gen<FCase> genFCase() {
+    using namespace rc;
+    auto opGen = gen::map(gen::tuple(gen::weightedElement<int>({{4, 0}, {1, 1}, {2, 2}, {4, 3}}), vf::range<unsigned>(0, 2), gen::resize(100, gen::arbitrary<uint64_t>())),
+                          [](std::tuple<int, unsigned, uint64_t> p) { return FOp{std::get<0>(p), std::get<1>(p), std::get<2>(p)}; });
+    return gen::map(gen::container<FCase>(opGen), [](FCase c) {
+        c.insert(c.begin(), FOp{2, 0, 1});
+        c.insert(c.begin(), FOp{2, 1, 1}); // both ports enabled from the start (a later op may disable one)
         return c;
     });
 }
@@ -526,7 +652,7 @@ int main(int argc, char** argv) {
     p.encode = encode;
     p.decode = decode;
     p.max_size = 120;
-    p.share = 0.8;
+    p.share = 0.7;
     vf::run(p);
 
     vf::Property<PCase> q;
@@ -538,5 +664,15 @@ int main(int argc, char** argv) {
     q.max_size = 60;
     q.share = 0.2;
     vf::run(q);
+
+    vf::Property<FCase> f;
+    f.name = "btdmp_facade";
+    f.gen = genFCase;
+    f.check = fcheck;
+    f.encode = fencode;
+    f.decode = fdecode;
+    f.max_size = 30;
+    f.share = 0.1;
+    vf::run(f);
     return vf::finish();
 }
